@@ -174,7 +174,7 @@ func runC07(e *Env) {
 		case "panic-err", "ret-err":
 			return errors.Is(err, ScriptError(90+f.Arg))
 		default:
-			return err != nil && strings.Contains(err.Error(), fmt.Sprintf("injected-panic-%d", f.Arg))
+			return err != nil && strings.Contains(err.Error(), fmt.Sprintf("injected-panic-%d (100%% sure, 5%%d)", f.Arg))
 		}
 	}
 	// follow-up: locks were released, the observable and the subscription are still usable
